@@ -109,7 +109,7 @@ class C13(Check):
             return dict(xyz=xyz, z=z, w=w)
 
         tables = dict(
-            ref=points(rng.integers(10, 40, P), True, bool(rng.random() < 0.6) or tr == "split"),
+            ref=points(rng.integers(10, 40, P), True, bool(rng.random() < 0.6) or (tr == "split" and case_bits(case, "dynamic-range") % 2 == 0)),
             unk=points(rng.integers(10, 50, P), False, bool(rng.random() < 0.6)),
             rr=points(rng.integers(15, 50, P), True, False),
             ur=points(rng.integers(15, 50, P), False, False),
